@@ -289,6 +289,31 @@ func verifParseCtx(c *Context, k int, in string, record bool) (res VerifResult) 
 }
 
 func verifModes(req *VerifRequest, resp *VerifResponse) {
+	if req.Mode == "c15" {
+		// all legs in one process: fresh contexts, reused context, nested parses, concurrent contexts
+		for _, m := range []string{"fresh", "reuse", "nested", "concurrent"} {
+			r2 := *req
+			r2.Mode = m
+			if m == "concurrent" {
+				// only inputs that terminate sequentially are run concurrently (no step limit there)
+				var cs []string
+				for k, c := range req.Cases {
+					if resp.Results[0][k].Verdict != "steplimit" {
+						cs = append(cs, c)
+					}
+				}
+				r2.Cases = cs
+				if len(cs) == 0 {
+					resp.Notes = append(resp.Notes, "concurrent:0")
+					continue
+				}
+			}
+			before := len(resp.Results)
+			verifModes(&r2, resp)
+			resp.Notes = append(resp.Notes, m+":"+strconv.Itoa(len(resp.Results)-before))
+		}
+		return
+	}
 	orders := req.Orders
 	if len(orders) == 0 {
 		o := make([]int, len(req.Cases))
@@ -323,6 +348,9 @@ func verifModes(req *VerifRequest, resp *VerifResponse) {
 		for k := range req.Cases {
 			for at := 0; at <= len(req.Cases[k]); at++ {
 				other := req.Cases[(k+1)%len(req.Cases)]
+				if len(resp.Results) > 0 && len(resp.Results[0]) == len(req.Cases) && resp.Results[0][(k+1)%len(req.Cases)].Verdict == "steplimit" {
+					other = ""
+				}
 				var innerRes VerifResult
 				fired := false
 				verifNested = func(pos int) {
@@ -379,6 +407,7 @@ func verifModes(req *VerifRequest, resp *VerifResponse) {
 						}
 						res := verifParseCtx(c, kk, req.Cases[kk], false)
 						res.Fetched = kk
+						res.Msg = req.Cases[kk] + "|" + res.Msg
 						out = append(out, res)
 					}
 				}
@@ -388,7 +417,7 @@ func verifModes(req *VerifRequest, resp *VerifResponse) {
 		wg.Wait()
 		atomic.StoreInt32(&verifConcurrent, 0)
 		atomic.StoreInt32(&verifYield, 0)
-		resp.Results = all
+		resp.Results = append(resp.Results, all...)
 	}
 }
 `
